@@ -53,9 +53,6 @@ func runOne(spec string, idx int, seed int64) int {
 	case <-time.After(150 * time.Second):
 		e.tr.log("-", "harness.timeout", "scenario_exceeded_150s")
 	}
-	w := bufio.NewWriter(os.Stdout)
-	e.tr.dump(w)
-	w.Flush()
 	return 0
 }
 
